@@ -29,6 +29,12 @@ def c01_oracle(case, a, before_label="0", after_label="final", rollback_index=No
     return None
 
 
+def c01_lines(a, label, cfg):
+    if label not in a["S"]:
+        return None
+    return sorted(worldrun.strip_for_c01(l) for l in worldrun.region(a["S"][label], cfg, "base"))
+
+
 def view_of_world(cfg, wp):
     p = t2.view_prefix(cfg)
     if not p:
@@ -44,15 +50,33 @@ def mirror(cfg, view_path):
     return q if view_path == b"/" else q + view_path
 
 
-def same_entry(o, c, dir_relaxed=True):
-    """is c an exact copy of o (type, content/target, mode, owner, file mtime)"""
+def same_entry(o, c, q=None):
+    """is c an exact copy of o (type, content/target, mode, owner, file mtime).
+    With q: c lives in the backup PrefixFS at q, where absolute link targets are
+    stored re-rooted (q + target) and read back without q."""
     if o["kind"] != c["kind"]:
         return False
+    if q is not None and c["kind"] == "L":
+        t = dec(c["data"])
+        if t.startswith(b"/") and pg.within(q, pg.goclean(t)):
+            t = t[len(q):] or b"/"
+            c = dict(c, data=enc(t))
     if o["kind"] == "D":
         return o["perm"] == c["perm"] and o["uid"] == c["uid"] and o["gid"] == c["gid"]
     if o["kind"] == "L":
         return o["data"] == c["data"] and o["uid"] == c["uid"] and o["gid"] == c["gid"]
     return o["perm"] == c["perm"] and o["uid"] == c["uid"] and o["gid"] == c["gid"] and o["mt"] == c["mt"] and o["data"] == c["data"]
+
+
+def view_entry(cfg, o):
+    """an original base entry as the base view reports it: absolute link
+    targets below the base prefix are read without the prefix"""
+    p = t2.view_prefix(cfg)
+    if p and o["kind"] == "L":
+        t = dec(o["data"])
+        if t.startswith(b"/") and pg.within(p, pg.goclean(t)):
+            return dict(o, data=enc(t[len(p):] or b"/"))
+    return o
 
 
 def rle_len(d):
@@ -100,7 +124,7 @@ def recoverable(cfg, s0_lines, w_lines):
         if intact:
             continue
         cp = w.get(mirror(cfg, view_of_world(cfg, o["path"])))
-        if cp is None or not same_entry(o, cp):
+        if cp is None or not same_entry(view_entry(cfg, o), cp, cfg["q"]):
             return "original %s (%s) is neither intact in the base (now %s) nor exactly copied in the backup (copy %s)" % (
                 enc(o["path"]), l, cur, cp)
     return None
@@ -125,14 +149,15 @@ def backup_clean(cfg, s0_lines, w_lines, s0_backup_lines):
             return "backup holds %s but the base had no entry at %s when the transaction began" % (l, enc(op))
         if o["kind"] != c["kind"]:
             return "backup holds %s, the original at %s was of another type (%s)" % (l, enc(op), o["kind"])
-        if same_entry(o, c):
+        if same_entry(view_entry(cfg, o), c, q):
             continue
         cur = w.get(op)
         if cur is not None and same_entry(o, cur):
             # original still intact: the copy may be in the making
             if c["kind"] == "F" and not rle_is_prefix(c["data"], o["data"]):
                 return "backup copy %s is not a prefix of the original's content" % l
-            if c["kind"] == "L" and c["data"] != o["data"]:
+            if c["kind"] == "L" and not same_entry(view_entry(cfg, o), dict(c, uid=o["uid"], gid=o["gid"]), q):
+                # (the owner of a link copy in the making may still lag behind)
                 return "backup link %s differs from the original target" % l
             continue
         return "backup copy %s differs from the original %s which is no longer intact in the base" % (l, o)
